@@ -193,7 +193,16 @@ def run_program(ops, seed, tmp, form="explicit", shared_cb=None):
                 r2 = System(*obs).statistics(state, **kw2) if op["system"] else [o.statistics(state, **kw2) for o in obs]
                 require(deep_equal(r1, r2), "not-reproducible:statistics-same-arguments",
                         "statistics called twice with the same seed and the same arguments (start chains given, overwrite=False) gave different results")
-                outs[-1] = [outs[-1], r1]
+                # ... and the combination caller-supplied chains + no burn-in + several draws per chain
+                x_keep = x.clone()
+                kw3 = dict(num_samples=3 * x.shape[0], num_chains=x.shape[0], burn_in=0, steps=max(op["steps"], 1), initial_state=x)
+                seed_lib(seed + 19, form)
+                r3 = System(*obs).statistics(state, **kw3) if op["system"] else [o.statistics(state, **kw3) for o in obs]
+                seed_lib(seed + 19, form)
+                r4 = System(*obs).statistics(state, **kw3) if op["system"] else [o.statistics(state, **kw3) for o in obs]
+                require(deep_equal(r3, r4) and torch.equal(x, x_keep), "not-reproducible:statistics-same-arguments",
+                        "statistics called twice with the same seed, the same start chains (overwrite left at its default), burn_in=0 and three draws per chain gave different results (or changed the caller's chains)")
+                outs[-1] = [outs[-1], r1, r3]
         elif k == "fit":
             data, bases = train_data(state.num_visible, op["N"])
             kw = {"input_bases": bases} if len(state.networks) > 1 else {}
